@@ -9,9 +9,16 @@ def parse_tps(tps):
 
     if who not in ("1", "2"):
         raise IllegalTPS("Current player must be either 1 or 2")
-    if not (move.isascii() and move.isdigit()) or int(move) < 1:
+    if not (move.isascii() and move.isdigit()):
         raise IllegalTPS("Bad move number: " + move)
-    ply = 2 * (int(move) - 1) + int(who) - 1
+    try:
+        number = int(move)
+    except ValueError:
+        # more digits than int() is willing to convert
+        raise IllegalTPS("Bad move number: " + move)
+    if number < 1:
+        raise IllegalTPS("Bad move number: " + move)
+    ply = 2 * (number - 1) + int(who) - 1
 
     squares = []
     rows = board.split("/")
